@@ -453,6 +453,12 @@ class Monitor:
     def on_request(self, req):
         pass
 
+    def on_tap_enter(self, tap, phenome):
+        pass
+
+    def on_tap_exit(self, tap, phenome, ret):
+        pass
+
     def on_consult(self, tree, site, deme, raw, verdict):
         pass
 
@@ -738,6 +744,8 @@ class World:
     def tap_enter(self, tap, phenome):
         st = self.stacks[tap.stack_id]
         st["n_in"][tap.pos] += 1
+        if self._hooks["on_tap_enter"]:
+            self._dispatch("on_tap_enter", tap, phenome)
         if tap.top and not self.in_monitor:
             deme = calling_deme(3)
             g = gbytes(phenome)
@@ -758,6 +766,8 @@ class World:
         return None
 
     def tap_exit(self, tap, tok, phenome, ret):
+        if self._hooks["on_tap_exit"]:
+            self._dispatch("on_tap_exit", tap, phenome, ret)
         if tok is not None:
             req = self._req_stack.pop()
             req.value = ret
